@@ -39,6 +39,11 @@ func newListUniverse(alpha string, maxLen, maxLive int, other string, keyLimit i
 			u.keys = append(u.keys, s)
 		}
 	}
+	// a few three-segment keys and longer prefixes (two delimiters) on top of the exhaustive short ones
+	a, b := string(alpha[0]), string(alpha[1])
+	extraKeys := []string{a + "/" + b + "/" + a, a + "/" + a + "/" + b}
+	u.prefixes = append(u.prefixes, a+"//"+a, a+"/"+b+"/", a+"/"+a+"/", a+"/"+b+"/"+a, a+"//"+b)
+	defer func() { u.keys = append(u.keys, extraKeys...); sort.Strings(u.keys) }()
 	if keyLimit > 0 && len(u.keys) > keyLimit {
 		// keep a spread: the keys containing the delimiter first, then short ones
 		var with, without []string
@@ -166,7 +171,7 @@ func (s *listSys) Apply(op engine.Op) (string, *engine.Violation) {
 }
 
 func (s *listSys) Key() string {
-	return drv.KeyOf(s.w.Snapshot(drv.SnapOpts{Versions: s.versioned}))
+	return drv.KeyOf(s.w.Snapshot(drv.SnapOpts{Versions: s.versioned || s.w.Cfg.Kind == drv.Mem}))
 }
 
 func (s *listSys) delims() []string {
@@ -614,6 +619,8 @@ func listPlans(c *engine.Ctx, prop string) []listPlan {
 	// versioned variant (delete-marked keys): version stacks grow with depth, so a smaller universe
 	plans = append(plans, listPlan{cfg: drv.Config{Kind: drv.Mem}, u: newListUniverse("ab/", 3, 3, "a", 6), versioned: true, depth: depth - 1})
 	if prop == "C04" {
+		// keys whose base64 form uses the characters that differ between the standard and the URL alphabet
+		plans = append(plans, listPlan{cfg: drv.Config{Kind: drv.Mem}, u: newListUniverse("a~/", 3, 3, "a", 8), depth: depth - 1})
 		plans = append(plans, listPlan{cfg: drv.Config{Kind: drv.Bolt, FailOnUnimplPage: true}, u: u1, depth: depth - 1})
 		plans = append(plans, listPlan{cfg: drv.Config{Kind: drv.MultiMem, FailOnUnimplPage: true}, u: u1, depth: depth - 1})
 	}
